@@ -54,3 +54,5 @@ pub proof fn lemma_neg_i64_as_usize()
 {
     assert(forall|i: i64| i < 0 ==> (#[trigger] (i as usize)) >= 0x8000_0000_0000_0000usize) by (bit_vector);
 }
+pub assume_specification<T>[<Arc<T> as From<T>>::from](t: T) -> (r: Arc<T>) ensures *r == t;
+pub assume_specification[<Ordering as PartialEq>::eq](a: &Ordering, b: &Ordering) -> (r: bool) ensures r == (*a == *b);
